@@ -19,8 +19,8 @@
    lock), (b) [Hkeep] for deleters (CrashGeneral.crash_WI says exactly this for thread 0;
    delete_object creates no temp file, so thread numbers do not matter) and for taggers
    (CrashGeneral would have to be generalised from thread 0 to thread t: temp names).
-   The extracted model finds no counterexample: all triples of del / tag calls on one cid over
-   1-3 bound pids are linearizable under every schedule (see DESIGN.md 12.4b). *)
+   The extracted model finds no counterexample: the triples del||tag||tag and del||del||tag on one
+   cid over 1-3 bound pids that were swept are linearizable under every schedule (DESIGN.md 12.4b). *)
 From HS Require Import Base PyVal FS Ops Sched Spec SeqLemmas Bracket Indep IndepMeta OneDoc OneCid OneCidDel.
 
 Theorem C07_prelude_pool :
